@@ -43,6 +43,11 @@ def instances(tier):
     for cls in ("LinearVectorModel", "MeanLinearVectorModel", "PCAVectorModel", "PCAModel"):
         for (k, d) in (KD if tier != "quick" else [(1, 2), (2, 2), (2, 3)]):
             out.append(("projection", {"cls": cls, "k": k, "d": d}))
+            if cls.startswith("PCA") and k >= 2:
+                # the same identities on the ACTIVE prefix after the number of active components was lowered
+                # (integer form, no trim), and agreement with the trimmed model
+                for a in range(1, k):
+                    out.append(("projection", {"cls": cls, "k": k, "d": d, "active": a}))
     if tier != "quick":
         # the eigen-decomposition clause through the 2x2 eigh parametrisation: only pcacov on a symbolic 2x2
         # covariance is decided within the resource limit; menpo.math.pca on symbolic data left obligations
@@ -234,6 +239,13 @@ def projection(F, ob, cfg):
             m = PCAModel.init_from_components(U, ev, tmpl, 9, True)
         else:
             m = PCAVectorModel.init_from_components(U, ev, mean, 9, True)
+    act = cfg.get("active")
+    if act is not None:
+        m.n_active_components = act
+        ob.true("active.count", m.n_active_components == act and m.components.shape[0] == act)
+        U, k = U[:act], act
+        if ev is not None:
+            ev = ev[:act]
     w = F.reals("w", (k,), -3, 3)
     x = F.reals("x", (d,), -3, 3)
     wrap = (lambda v: m.template_instance.from_vector(v)) if obj else (lambda v: v)
@@ -245,8 +257,16 @@ def projection(F, ob, cfg):
     po = vec(m.project_out(wrap(x))).ravel()
     ob.eq("project_out.orthogonal_to_model", U.dot(po), np.zeros(k))
     ob.eq("reconstruct+project_out=x", vec(r1) + po, x)
+    ob.eq("reconstruct=mean+UU^T(x-mean)", vec(r1), mean + (x - mean).dot(U.T).dot(U))
     if k == d:
         ob.eq("full_rank.reconstructs", vec(r1), x)
+    if act is not None:
+        # trimming to the active prefix changes none of the observable maps
+        t = m.copy()
+        t.trim_components()
+        ob.eq("trimmed.project", t.project(wrap(x)), m.project(wrap(x)))
+        ob.eq("trimmed.reconstruct", vec(t.reconstruct(wrap(x))), vec(r1))
+        ob.eq("trimmed.project_out", vec(t.project_out(wrap(x))).ravel(), po)
     ob.eq("instance=mean+U^T w", vec(inst), mean + w.dot(U))
     if ev is not None:
         # normalised weights scale by sqrt(eigenvalue)
